@@ -124,3 +124,29 @@ def scenario_two_connections_then_both_close():
     return {"violated": listed_after_last or not still_after_first, "listed_after_first_close": still_after_first,
             "listed_after_last_close": listed_after_last, "connection_table": dict(ff.dead_man_switch_user_ids),
             "scenario": "user u1 connects twice (c1, c2), registers on unit E, closes c1 then c2"}
+
+
+def scenario_concurrent_saves():
+    """two saves based on the same version run concurrently; the dispatcher's rpc_call yields to the event loop"""
+    agg, Mdl, ff, emap = make_frontend()
+
+    class Disp:
+        async def rpc_call(self, engine_id, message=None):
+            await asyncio.sleep(0)          # the engine round-trip: other coroutines run here
+            import openpectus.protocol.aggregator_messages as AM
+            return AM.SuccessMessage()
+    ff.dispatcher = Disp()
+
+    async def body():
+        emap["E"] = Mdl.EngineData("E", "pc", "v", "uod", "a", "e", "f", "loc")
+        v0 = emap["E"].method.version
+        m1 = Mdl.Method(lines=[Mdl.MethodLine(id="1", content="Mark: A")], version=v0, last_author="a")
+        m2 = Mdl.Method(lines=[Mdl.MethodLine(id="1", content="Mark: B")], version=v0, last_author="b")
+        u = Mdl.Contributor(id=None, name="x")
+        res = await asyncio.gather(ff.save_method("E", m1, u), ff.save_method("E", m2, u), return_exceptions=True)
+        return v0, res, emap["E"].method.version, emap["E"].method.lines[0].content
+    v0, res, v_end, content = asyncio.run(body())
+    accepted = [r for r in res if isinstance(r, int)]
+    return {"violated": len(accepted) > 1, "based_on_version": v0, "results": [str(r) for r in res], "accepted": len(accepted),
+            "final_version": v_end, "surviving_content": content,
+            "scenario": "two save_method calls based on the same version, interleaved at the dispatcher await"}
